@@ -124,3 +124,124 @@ def translate_v_sd(S, va, ispriv, iswrite):
         'walked': z3.Not(z3.Or(f_dis, f_tr1, f_tr2, f_af)),
         'l1type': t1, 'l2type': bits(l2, 1, 0),
     }
+
+
+# ---------------------------------------------------------------------------
+# Long-descriptor format, stage 1, PL1&0 (DDI 0406C B3.6, B3.19.6 TranslationTableWalkLD, B4.1.104 MAIRn)
+# ---------------------------------------------------------------------------
+
+def read64(mem, addr40, big_endian):
+    """_Mem[addr,8] as the repository's memory hub sees it: no controller above 2^32 (reads as zero)"""
+    a = bits(addr40, 31, 0)
+    bs = [P.sel8(mem, z3.simplify(a + i)) for i in range(8)]
+    le = cat(*reversed(bs))
+    v = z3.If(big_endian, P.big_endian_reverse(le), le)
+    return z3.If(bits(addr40, 39, 32) == 0, v, BV(0, 64))
+
+
+def mair_decode(S, attrindx):
+    """MAIRDecode() for PL1&0.  `sure`: the encoding is one whose meaning table B4-? fixes without an IMPLEMENTATION
+    DEFINED / transient-hint / UNPREDICTABLE clause (Strongly-ordered, Device, Normal with non-transient or
+    non-cacheable inner and outer fields)."""
+    mair = cat(S.sys['mair1'], S.sys['mair0'])
+    field = bits(z3.LShR(mair, zx(attrindx, 64) * 8), 7, 0)
+    hi, lo = bits(field, 7, 4), bits(field, 3, 0)
+    is_so = z3.And(hi == 0, lo == 0)
+    is_dev = z3.And(hi == 0, lo == 4)
+    outer_nc = hi == 4
+    outer_ok = z3.Or(outer_nc, bit(field, 7))
+    inner_nc = lo == 4
+    inner_ok = z3.Or(inner_nc, bit(field, 3))
+    normal = z3.And(hi != 0, outer_ok, inner_ok)
+    return {
+        'type': z3.If(is_so, BV(SO, 2), z3.If(is_dev, BV(DEVICE, 2), BV(NORMAL, 2))),
+        'normal': normal,
+        'sure': z3.Or(is_so, is_dev, normal),
+        'outerattrs': z3.If(outer_nc, BV(0, 2), bits(field, 7, 6)),
+        'outerhints': z3.If(outer_nc, BV(0, 2), bits(field, 5, 4)),
+        'innerattrs': z3.If(inner_nc, BV(0, 2), bits(field, 3, 2)),
+        'innerhints': z3.If(inner_nc, BV(0, 2), bits(field, 1, 0)),
+    }
+
+
+def translate_v_ld(S, va, ispriv, iswrite):
+    """stage-1 long-descriptor translation (TTBCR.EAE = 1), not in Hyp mode, no stage 2.
+    returns dict: fault, kind ('t'ranslation/'a'ccess flag/'p'ermission as Bools), level (2 bits), pa (40 bits), ns,
+    attrs, unpred, first (level the walk starts at), final (level of the block/page descriptor)"""
+    sctlr = S.sys['sctlr']
+    ee = bit(sctlr, 25)
+    ttbcr = S.sys['ttbcr']
+    t0, t1 = bits(ttbcr, 2, 0), bits(ttbcr, 18, 16)
+    epd0, epd1 = bit(ttbcr, 7), bit(ttbcr, 23)
+    pid = bits(S.sys['fcseidr'], 31, 25)
+    mva = z3.If(bits(va, 31, 25) == 0, cat(pid, bits(va, 24, 0)), va)
+    ia = mva
+    use0 = z3.Or(t0 == 0, z3.LShR(ia, 32 - zx(t0, 32)) == 0)
+    ones1 = z3.LShR(~ia, 32 - zx(t1, 32)) == 0
+    # B3.6.4: TTBR1 is used for the top 2^(32-T1SZ) bytes when T1SZ > 0; with T1SZ = 0 only where TTBR0 does not apply
+    use1 = z3.Or(z3.And(t1 == 0, z3.Not(use0)), z3.And(t1 != 0, ones1))
+    base_found = z3.Or(use0, use1)
+    tsz = z3.If(use1, t1, t0)
+    ttbr = z3.If(use1, bits(S.sys['ttbr1_64'], 39, 0), bits(S.sys['ttbr0_64'], 39, 0))
+    disabled = z3.If(use1, epd1, epd0)
+    start2 = bits(tsz, 2, 1) != 0
+    tz = zx(tsz, 40)
+    balb = z3.If(start2, BV(14, 40) - tz, BV(5, 40) - tz)
+    base = z3.LShR(ttbr, balb) << balb
+    unpred_ttbr = z3.LShR(ttbr & ((BV(1, 40) << balb) - 1), 3) != 0
+    iam = ia & z3.LShR(BV(0xFFFFFFFF, 32), zx(tsz, 32))  # IA<31-TxSZ:0>
+    idx_first = z3.If(start2, z3.LShR(iam, 21), z3.LShR(iam, 30))
+    # level 1 (only when the walk starts there)
+    a1 = base | (zx(idx_first, 40) << 3)
+    d1 = read64(S.mem, a1, ee)
+    l1_visited = z3.Not(start2)
+    l1_inv = z3.And(l1_visited, z3.Not(bit(d1, 0)))
+    l1_blk = z3.And(l1_visited, bit(d1, 0), z3.Not(bit(d1, 1)))
+    l1_tab = z3.And(l1_visited, bit(d1, 0), bit(d1, 1))
+    # level 2
+    base2 = z3.If(start2, base, cat(bits(d1, 39, 12), BV(0, 12)))
+    idx2 = z3.If(start2, idx_first, zx(bits(ia, 29, 21), 32))
+    a2 = base2 | (zx(idx2, 40) << 3)
+    d2 = read64(S.mem, a2, ee)
+    l2_visited = z3.Or(start2, l1_tab)
+    l2_inv = z3.And(l2_visited, z3.Not(bit(d2, 0)))
+    l2_blk = z3.And(l2_visited, bit(d2, 0), z3.Not(bit(d2, 1)))
+    l2_tab = z3.And(l2_visited, bit(d2, 0), bit(d2, 1))
+    # level 3
+    a3 = cat(bits(d2, 39, 12), bits(ia, 20, 12), BV(0, 3))
+    d3 = read64(S.mem, a3, ee)
+    l3_inv = z3.And(l2_tab, z3.Not(z3.And(bit(d3, 0), bit(d3, 1))))
+    l3_page = z3.And(l2_tab, bit(d3, 0), bit(d3, 1))
+    early = z3.Or(z3.Not(base_found), disabled)
+    f_tr = z3.Or(early, l1_inv, l2_inv, l3_inv)
+    tr_level = z3.If(z3.Or(early, l1_inv), BV(1, 2), z3.If(l2_inv, BV(2, 2), BV(3, 2)))
+    final = z3.If(l1_blk, BV(1, 2), z3.If(l2_blk, BV(2, 2), BV(3, 2)))
+    D = z3.If(l1_blk, d1, z3.If(l2_blk, d2, d3))
+    pa = z3.If(l1_blk, cat(bits(d1, 39, 30), bits(ia, 29, 0)),
+               z3.If(l2_blk, cat(bits(d2, 39, 21), bits(ia, 20, 0)), cat(bits(d3, 39, 12), bits(ia, 11, 0))))
+    # hierarchical attributes of the table descriptors passed through
+    t1d, t2d = l1_tab, l2_tab
+
+    def acc(i):
+        return z3.Or(z3.And(t1d, bit(d1, i)), z3.And(t2d, bit(d2, i)))
+    ns_table, ap_ro, ap_nouser = acc(63), acc(62), acc(61)
+    lookup_secure = z3.And(S.is_secure(), z3.Not(ns_table))
+    af = bit(D, 10)
+    ap2 = z3.Or(bit(D, 7), ap_ro)
+    ap1 = z3.And(bit(D, 6), z3.Not(ap_nouser))
+    ap = cat(z3.If(ap2, BV(1, 1), BV(0, 1)), z3.If(ap1, BV(1, 1), BV(0, 1)), BV(1, 1))
+    ns_out = z3.Or(bit(D, 5), z3.Not(lookup_secure))
+    f_af = z3.And(z3.Not(f_tr), z3.Not(af))
+    pab, pun = check_permission_fault(ap, ispriv, iswrite, vmsa=True)
+    f_perm = z3.And(z3.Not(f_tr), af, pab)
+    m = mair_decode(S, bits(D, 4, 2))
+    sh = bits(D, 9, 8)
+    attrs = dict(m)
+    attrs['shareable'] = z3.If(m['normal'], bit(D, 9), z3.BoolVal(True))
+    attrs['outershareable'] = z3.If(m['normal'], sh == 2, z3.BoolVal(True))
+    return {
+        'fault': z3.Or(f_tr, f_af, f_perm), 'f_tr': f_tr, 'f_af': f_af, 'f_perm': f_perm,
+        'level': z3.If(f_tr, tr_level, final), 'mva': mva, 'pa': pa, 'ns': ns_out, 'attrs': attrs,
+        'unpred': z3.And(base_found, unpred_ttbr), 'start2': start2, 'final': final, 'use1': use1,
+        'visited': (l1_visited, l2_visited, l2_tab),
+    }
